@@ -122,7 +122,7 @@ Lemma advance_spec (P : cst -> Prop) :
   match acts with
   | [] => P cf /\ advance f N (rstate i c []) =
           (if negb (Nat.eqb (length (snaps cf)) 0) then (fin (rstate (length L) cf []), Raise RuntimeError) else (rdone (length L) cf, Yield EndReverse))
-  | a :: tl => exists i' c0 c' rest acts', advance f N (rstate i c []) = (rstate i' c' rest, Yield a) /\ (i' <= length L)%nat /\
+  | a :: tl => exists i' c0 c' rest acts', advance f N (rstate i c []) = (rstate i' c' rest, Yield a) /\ (i < i' <= length L)%nat /\
        tl = rest ++ acts' /\ convI N (length L - i') L i' c' = (acts', inl cf) /\ P c0 /\ conv1 N L (i' - 1) c0 = Ok (c', a :: rest)
   end.
 Proof.
@@ -134,7 +134,8 @@ Proof.
     assert (Hk : k = (length L - S i)%nat) by lia. rewrite Hk in E2.
     destruct l as [|a rest].
     + cbn [app]. specialize (IH (S i) c1 acts1 cf ltac:(lia) ltac:(lia) (Hsilent i c c1 HP E1) E2).
-      change {| ops := L; idx := S i; cs := c1; pend := []; exhausted := false; finished := false |} with (rstate (S i) c1 []). exact IH.
+      change {| ops := L; idx := S i; cs := c1; pend := []; exhausted := false; finished := false |} with (rstate (S i) c1 []).
+      destruct acts1 as [|a tl]; [exact IH|]. destruct IH as (i' & c0 & c' & rest & acts' & H1 & H2 & H3). exists i', c0, c', rest, acts'. split; [exact H1|]. split; [lia|exact H3].
     + cbn [app]. exists (S i), c, c1, rest, acts1. replace (S i - 1)%nat with i by lia. repeat split; auto.
   - assert (Hi' : i = length L) by lia. subst i. rewrite Nat.sub_diag in Hconv. cbn [convI] in Hconv. injection Hconv as <- <-.
     split; [exact HP|]. reflexivity.
@@ -197,7 +198,7 @@ Proof.
            cbn [get_max_n sch' ob isnone andb]. unfold get_n. cbn [sch' ob cs rdone]. apply Z.eqb_refl.
         -- destruct HRx' as (_ & _ & _ & Rr & _). rewrite Rr. cbn [toMS MSPot.rr]. destruct HPcf as [Af Ar]. rewrite Ar. reflexivity.
         -- cbn [get_max_n sch' ob oz_ok]. apply Z.eqb_refl.
-      * destruct Hadv as (i' & c0 & c' & rest & acts' & Hadv & Hi' & Htl & Hconv' & HP0 & Hc1). rewrite Hadv.
+      * destruct Hadv as (i' & c0 & c' & rest & acts' & Hadv & [Hii' Hi'] & Htl & Hconv' & HP0 & Hc1). rewrite Hadv.
         destruct (execs_cons x a tl xf Hexs) as (x1 & Hex1 & Hexs1).
         pose proof (conv1_agree N R L (i' - 1) c0 c' (a :: rest) x Hc1 HP0 HWD) as HAg'. cbn [AgP] in HAg'. destruct (HAg' x1 Hex1) as [HA1 HAr].
         pose proof (conv1_clears N L (i' - 1) c0 c' (a :: rest) Hc1) as Hcl'. apply Forall_cons_iff in Hcl'. destruct Hcl' as [Hcla Hclr]. rewrite Htl in Hexs1, HT.
@@ -216,5 +217,37 @@ Proof.
       apply (Jrun i c rest x1 (d + MSTerm.flen a) true m' Hi Hm' HRx' HNN' (exec_WD N R x a x1 Hex1 HWD) HAr Hclr).
       exists acts, cf, xf. unfold sumflen in *. cbn [fold_right] in HT. split; [exact Hconv|]. split; [exact Hexs1|]. split; [lia|exact Hfin].
   - unfold Sched.next, rsched. cbn [ob]. unfold RevConv.next. cbn [rdone finished]. apply (Jdone i c true); assumption.
+Qed.
+(* ---- termination: the op list is finite ---- *)
+Lemma conv1_len i c c1 l : conv1 N L i c = Ok (c1, l) -> (length l <= 2)%nat.
+Proof.
+  unfold conv1. intros H. destruct (nth_error L i) as [o|]; [|discriminate].
+  destruct (conv_n0_st o) as [[n0 sg]|e]; [|discriminate]. cbn [bind] in H.
+  destruct o; unfold bind in H; brk H; try discriminate; injection H as <- <-; cbn [length]; lia.
+Qed.
+Definition muS (sch : sched) : Z :=
+  match ob sch with ORevF _ _ _ _ r => if finished r then 0 else 2 * (Z.of_nat (length L) - Z.of_nat (idx r)) + Z.of_nat (length (pend r)) + 1 | _ => 0 end.
+Lemma muS_nonneg sch m : J sch m -> is_exhausted sch = false -> 0 <= muS sch.
+Proof. intros HJ _. inversion HJ; subst; unfold muS, rsched; cbn [ob rstate rdone finished idx pend]; lia. Qed.
+Lemma muS_dec sch m : J sch m -> is_exhausted sch = false -> muS (fst (Sched.next sch)) < muS sch.
+Proof.
+  intros HJ He. inversion HJ as [i c p x d stt m0 Hi Hm HRx HNN HWD HAg Hcl HFut|i c stt m0 Hm Htot]; subst; [|cbn in He; discriminate].
+  unfold Sched.next, rsched. cbn [ob]. unfold RevConv.next. cbn [rstate finished pend ops idx].
+  destruct p as [|a rest].
+  - change {| ops := L; idx := i; cs := c; pend := []; exhausted := false; finished := false |} with (rstate i c []).
+    destruct HFut as (acts & cf & xf & Hconv & Hexs & HT & Hsn & _). cbn [AgP] in HAg.
+    pose proof (advance_spec (fun c => agree c x) (fun i0 c0 c1 HP E => conv1_agree N R L i0 c0 c1 [] x E HP HWD)
+                  (S (length L - i)) i c acts cf ltac:(lia) Hi HAg Hconv) as Hadv.
+    destruct acts as [|a tl].
+    + destruct Hadv as [_ Hadv]. rewrite Hadv, Hsn. cbn [length Nat.eqb negb fst]. unfold muS. cbn [ob rdone rstate finished idx pend length]. lia.
+    + destruct Hadv as (i' & c0 & c' & rest & acts' & Hadv & [Hii' Hi'] & _ & _ & _ & Hc1). rewrite Hadv. cbn [fst].
+      pose proof (conv1_len _ _ _ _ Hc1) as Hl. cbn [length] in Hl.
+      unfold muS. cbn [ob rstate finished idx pend length]. lia.
+  - cbn [fst]. unfold muS. cbn [ob rstate finished idx pend length]. lia.
+Qed.
+Lemma exh_stays sch m : J sch m -> is_exhausted sch = true -> is_exhausted (fst (Sched.next sch)) = true.
+Proof.
+  intros HJ He. inversion HJ as [i c p x d stt m0 Hi Hm HRx HNN HWD HAg Hcl HFut|i c stt m0 Hm Htot]; subst; [cbn in He; discriminate|].
+  unfold Sched.next, rsched. cbn [ob]. unfold RevConv.next. cbn [rdone finished fst ob is_exhausted RevConv.exhausted]. reflexivity.
 Qed.
 End RUN.
